@@ -62,6 +62,11 @@ def label(e, env):
     return "<%s>" % e["k"]
 
 
+# every spelling of "not the first item" for an unsigned enumerate counter
+JOIN_CONDS = {"!=(index,0)", "Ne(index,0)", ">(index,0)", "Gt(index,0)", "!=(0,index)", "Ne(0,index)", "<(0,index)", "Lt(0,index)",
+              ">=(index,1)", "Ge(index,1)", "<=(1,index)", "Le(1,index)"}
+
+
 def canon_into(seq):
     """filling a local buffer commutes with writes to the sink (the sub-formatters only write): every ('into', buffer, ..) is placed right
     before the next element of the sequence that mentions that buffer (its flush), or at the end -- so `fill buffer; write budget; flush`
@@ -156,15 +161,19 @@ class Emit:
             return [label(x["args"][0], env)]
         if k == "MethodCall" and x["method"] == "push" and self.is_sink(x["recv"], env):
             return [label(x["args"][0], env)]
-        if k == "If":
-            c = strip(x["cond"])
-            then = strip(x["then"])
+        br = hir.as_branch(x) if k in ("If", "Match") and "ForLoop" not in x.get("source", "") else None
+        if br:
+            # `if c {A} else {B}`, `if !c {B} else {A}` and `match c {true => A, false => B}` are one shape (leading `!` folded into the branch order)
+            c, then, els_e = br
             # `if cond { return; }`
-            rets = [n for n in hir.walk(then) if n.get("k") == "Ret"]
-            if rets and not x.get("else"):
+            t_ret = then is not None and [n for n in hir.walk(then) if n.get("k") == "Ret"]
+            e_ret = els_e is not None and [n for n in hir.walk(els_e) if n.get("k") == "Ret"]
+            if t_ret and els_e is None:
                 return [("unless", label(c, env))]
-            body = self.block(then, env, depth, owner)
-            els = self.block(x["else"], env, depth, owner) if x.get("else") else []
+            if e_ret and then is None:
+                return [("unless", _neg(label(c, env)))]
+            body = self.block(then, env, depth, owner) if then is not None else []
+            els = self.block(els_e, env, depth, owner) if els_e is not None else []
             return [("if", label(c, env), body, els)]
         if k == "Match" and "ForLoop" in x.get("source", ""):
             # for pat in iter { body }
@@ -202,7 +211,7 @@ class Emit:
             body = self.block(inner["body"], env, depth, owner)
             # recognise the join idiom: [('if', 'i != 0', seps, []), item]
             # join idiom: the separator is written before every item except the first -- the condition must be exactly `index != 0`
-            if len(body) == 2 and isinstance(body[0], tuple) and body[0][0] == "if" and not body[0][3] and body[0][1] in ("!=(index,0)", "Ne(index,0)", ">(index,0)", "Gt(index,0)"):
+            if len(body) == 2 and isinstance(body[0], tuple) and body[0][0] == "if" and not body[0][3] and body[0][1] in JOIN_CONDS:
                 return [("join", src_l, body[0][2], body[1])]
             return [("loop", src_l, body)]
         if k == "Match":
